@@ -136,6 +136,28 @@ func runC02(c *eng.Ctx, tier string) {
 							}
 						}
 					}
+					// spilling the value into a local cell (a variable captured by a
+					// literal) is not a use: the reads of the cell are
+					if st, isSt := r.(*ssa.Store); isSt && !dom && st.Val == ssa.Value(val) {
+						if cell, isCell := st.Addr.(*ssa.Alloc); isCell && cell.Referrers() != nil {
+							dom = true
+							for _, cr := range *cell.Referrers() {
+								switch cr.(type) {
+								case *ssa.Store, *ssa.DebugRef:
+									continue
+								}
+								okUse := false
+								for _, cond := range eng.FactsAt(cr) {
+									if v, truth, isB := cond.Bool(); isB && truth && okv != nil && eng.Same(v, okv) {
+										okUse = true
+									}
+								}
+								if !okUse {
+									dom = false
+								}
+							}
+						}
+					}
 					if !dom {
 						bad = "value used at " + c.P.Pos(r.Pos()) + " (" + eng.InstrStr(r) + ") without ok being true there"
 					}
@@ -274,19 +296,19 @@ func c02Numbers(c *eng.Ctx, d *dbInfo, k *kvAnalysis) {
 		okk := ok1 && ok2 && lv == 1 && av == 1 && len(keys) == 1 && keys[0] == 1
 		c.Check(okk, "R-C02-3", w.Fn, w.In.Pos(), "new secret literal", "{Versions:{1: value}, ActiveVersion:1, LatestVersion:1}: the first put creates version 1 and makes it active", "LatestVersion="+eng.ValStr(fields["LatestVersion"])+" ActiveVersion="+eng.ValStr(fields["ActiveVersion"]))
 		absent := false
-		for _, cond := range eng.FactsAt(w.In) {
+		for _, cond := range eng.FactsX(w.In) {
 			if v, isNil, isN := cond.NilCheck(); isN && isNil {
-				if lk, isLk := eng.Origin(v).(*ssa.Lookup); isLk && sameMapSrc(lk.X, w.Map) && eng.Same(lk.Index, w.Key) {
+				if lk, isLk := eng.Origin(v).(*ssa.Lookup); isLk && sameMapSrcX(lk.X, w.Map) && eng.SameX(lk.Index, w.Key) {
 					absent = true
 				}
 			}
 			if src, truth, isCO := cond.CommaOk(); isCO && !truth {
-				if lk, isLk := src.(*ssa.Lookup); isLk && sameMapSrc(lk.X, w.Map) && eng.Same(lk.Index, w.Key) {
+				if lk, isLk := src.(*ssa.Lookup); isLk && sameMapSrcX(lk.X, w.Map) && eng.SameX(lk.Index, w.Key) {
 					absent = true
 				}
 			}
 		}
-		c.Check(absent, "R-C02-3", w.Fn, w.In.Pos(), eng.InstrStr(w.In), "a secret is created only under a name proven absent on this path (an existing secret's versions and counter are never replaced)", "holding here: "+eng.FactsString(w.In))
+		c.Check(absent, "R-C02-3", w.Fn, w.In.Pos(), eng.InstrStr(w.In), "a secret is created only under a name proven absent on this path (an existing secret's versions and counter are never replaced)", "holding here: "+factsStr(eng.FactsX(w.In)))
 	}
 	// dedupe short-cut: success returns BEFORE any write
 	for _, f := range k.mutators() {
